@@ -30,6 +30,9 @@ type UnitResult struct {
 	// OnlyInBatch: the unit failed at run time only when the preceding units of its batch had run before it in
 	// the same program (alone it runs cleanly): state leaked between independent units inside the VM.
 	OnlyInBatch bool
+	// TimedOut (isolated runs only): the child process exceeded its generous time limit while running this unit;
+	// nothing was observed and nothing is concluded.
+	TimedOut bool
 }
 
 // Failed reports whether the unit could not be observed normally.
